@@ -107,4 +107,14 @@ def holdsC02 (s : Spec02) (pt : List Rat) (observed : List Rat) (relTol : Rat) :
   | none => none
   | some (doc, scale) => compareAll s.name relTol scale 0 observed doc
 
+/-- the observation is either the returned array or a rejection (`evaluate` raised): where the documented
+    expression is defined, a rejection violates the property (every layout `extract_params` accepts is valid) -/
+def holdsC02Obs (s : Spec02) (pt : List Rat) (observed : Option (List Rat)) (relTol : Rat) : Option String :=
+  match observed with
+  | some o => holdsC02 s pt o relTol
+  | none =>
+    match documentedAt s pt with
+    | some _ => some s!"{s.name}:valid-layout-rejected"
+    | none => none
+
 end Jinns.Holds
